@@ -356,7 +356,8 @@ class ApplicationAssociationResponse(acse_base.AbstractAcseApdu):
             )
         if self.mechanism_name is not None:
             aare_data.extend(BER.encode(0x89, self.mechanism_name.to_bytes()))
-        if self.authentication_value is not None:
+        if self.authentication_value is not None and self.mechanism_name is not None:
+            # only part of the authentication functional unit.
             aare_data.extend(
                 BER.encode(
                     170,
